@@ -10,41 +10,45 @@ EXTENDS Integers, Sequences, FiniteSets, TLC
 
 CONSTANTS N,               \* peers 1..N
           MaxSeeds,
-          BugSeedsNotDeduplicated
+          BugSeedsNotDeduplicated,
+          BugSeenBeforeAccepted   \* a seed without addresses is marked as seen although it is skipped
 
 Peers == 1..N
-VARIABLES nbrs, fails, seeds,     \* the world: chosen initially
+VARIABLES nbrs, fails, seeds, noaddr,   \* the world: chosen initially (noaddr: seeds given without any address)
           pc, i, toDial, seen, outstanding, inwork, results,
           nqueried, outcomes
-vars == <<nbrs, fails, seeds, pc, i, toDial, seen, outstanding, inwork, results, nqueried, outcomes>>
+vars == <<nbrs, fails, seeds, noaddr, pc, i, toDial, seen, outstanding, inwork, results, nqueried, outcomes>>
 
 SeedLists == UNION {[1..k -> Peers] : k \in 0..MaxSeeds}
 
-Init == /\ nbrs \in [Peers -> SUBSET Peers] /\ fails \in SUBSET Peers /\ seeds \in SeedLists
+Init == /\ nbrs \in [Peers -> SUBSET Peers] /\ fails \in SUBSET Peers /\ seeds \in SeedLists /\ noaddr \in SUBSET Peers
         /\ pc = "seeding" /\ i = 1 /\ toDial = <<>> /\ seen = {} /\ outstanding = 0
         /\ inwork = {} /\ results = {}
         /\ nqueried = [p \in Peers |-> 0] /\ outcomes = [p \in Peers |-> 0]
 
-\* the seeds are copied to the to-dial list (a seed that was seen already is skipped)
+\* the seeds are copied to the to-dial list; a seed that was seen already, or for which no
+\* address is known, is skipped
 Seed == /\ pc = "seeding"
         /\ IF i > Len(seeds) THEN pc' = "loop" /\ UNCHANGED <<i, toDial, seen>>
            ELSE /\ i' = i + 1 /\ pc' = pc
                 /\ IF seeds[i] \in seen /\ ~BugSeedsNotDeduplicated
                    THEN UNCHANGED <<toDial, seen>>
-                   ELSE toDial' = Append(toDial, seeds[i]) /\ seen' = seen \cup {seeds[i]}
-        /\ UNCHANGED <<nbrs, fails, seeds, outstanding, inwork, results, nqueried, outcomes>>
+                   ELSE IF seeds[i] \in noaddr
+                        THEN toDial' = toDial /\ seen' = IF BugSeenBeforeAccepted THEN seen \cup {seeds[i]} ELSE seen
+                        ELSE toDial' = Append(toDial, seeds[i]) /\ seen' = seen \cup {seeds[i]}
+        /\ UNCHANGED <<nbrs, fails, seeds, noaddr, outstanding, inwork, results, nqueried, outcomes>>
 
 \* the head of the to-dial list goes to a worker
 Dispatch == /\ pc = "loop" /\ toDial # <<>>
             /\ inwork' = inwork \cup {<<Head(toDial), nqueried[Head(toDial)] + 1>>}
             /\ nqueried' = [nqueried EXCEPT ![Head(toDial)] = @ + 1]
             /\ toDial' = Tail(toDial) /\ outstanding' = outstanding + 1
-            /\ UNCHANGED <<nbrs, fails, seeds, pc, i, seen, results, outcomes>>
+            /\ UNCHANGED <<nbrs, fails, seeds, noaddr, pc, i, seen, results, outcomes>>
 
 \* a worker finishes its query
 Work(j) == /\ j \in inwork
            /\ inwork' = inwork \ {j} /\ results' = results \cup {j}
-           /\ UNCHANGED <<nbrs, fails, seeds, pc, i, toDial, seen, outstanding, nqueried, outcomes>>
+           /\ UNCHANGED <<nbrs, fails, seeds, noaddr, pc, i, toDial, seen, outstanding, nqueried, outcomes>>
 
 \* the loop takes a result: one outcome callback; new peers join the to-dial list
 Take(j) == /\ pc = "loop" /\ j \in results
@@ -55,10 +59,10 @@ Take(j) == /\ pc = "loop" /\ j \in results
                   RECURSIVE AsSeq(_)
                   AsSeq(S) == IF S = {} THEN <<>> ELSE LET x == CHOOSE y \in S : TRUE IN <<x>> \o AsSeq(S \ {x})
               IN toDial' = toDial \o AsSeq(new) /\ seen' = seen \cup new
-           /\ UNCHANGED <<nbrs, fails, seeds, pc, i, inwork, nqueried>>
+           /\ UNCHANGED <<nbrs, fails, seeds, noaddr, pc, i, inwork, nqueried>>
 
 Finish == /\ pc = "loop" /\ toDial = <<>> /\ outstanding = 0 /\ pc' = "done"
-          /\ UNCHANGED <<nbrs, fails, seeds, i, toDial, seen, outstanding, inwork, results, nqueried, outcomes>>
+          /\ UNCHANGED <<nbrs, fails, seeds, noaddr, i, toDial, seen, outstanding, inwork, results, nqueried, outcomes>>
 
 Next == Seed \/ Dispatch \/ (\E j \in inwork : Work(j)) \/ (\E j \in results : Take(j)) \/ Finish
         \/ (pc = "done" /\ UNCHANGED vars)
@@ -67,7 +71,7 @@ Spec == Init /\ [][Next]_vars /\ WF_vars(Next)
 \* the peers reachable from the seeds through peers that answer
 RECURSIVE Reach(_)
 Reach(S) == LET T == S \cup UNION {nbrs[p] : p \in S \ fails} IN IF T = S THEN S ELSE Reach(T)
-Reachable == Reach({seeds[k] : k \in DOMAIN seeds})
+Reachable == Reach({seeds[k] : k \in DOMAIN seeds} \ noaddr)
 
 NeverTwice == \A p \in Peers : nqueried[p] <= 1 /\ outcomes[p] <= nqueried[p]
 Complete == pc = "done" => \A p \in Peers : nqueried[p] = (IF p \in Reachable THEN 1 ELSE 0) /\ outcomes[p] = nqueried[p]
